@@ -55,6 +55,9 @@ class ProbeEmitter:
             a('%s    p.op("array:iterate", e_, [&] { for(auto x_ : %s) p.sink += (unsigned char)x_; });' % (ind, v))
             a('%s    p.op("array:front-back", e_, [&] { if(%s.size()) p.sink += (unsigned char)%s.front() + (unsigned char)%s.back(); });' % (ind, v, v, v))
             a('%s    p.op("array:strlen_r", e_, [&] { p.sink += %s.strlen_r(); });' % (ind, v))
+            if node.prim == "char":
+                # strlen() is only well-formed for char arrays; on an array without a NUL it must stop at element N-1
+                a('%s    p.op("array:strlen", e_, [&] { p.sink += %s.strlen(); });' % (ind, v))
             a('%s    p.op("array:fill", e_, [&] { %s.fill(typename decltype(%s)::value_type{}); });' % (ind, v, v))
             a('%s    p.op("array:assign", e_, [&] { %s.assign(%s.size(), typename decltype(%s)::value_type{}); });' % (ind, v, v, v))
             a('%s    p.op("array:size_bytes", e_, [&] { p.sink += ::sbepp::size_bytes(%s); });' % (ind, v))
